@@ -2,7 +2,7 @@
 # usage: tools/run_all.sh <quick|thorough> [ids...]  -- runs checks sequentially, prints one line per check.
 # Thorough evidence files are copied to evidence-thorough/ (the committed evidence/ holds quick-tier runs, which
 # is what a fresh restore reproduces).
-cd /verif
+cd "$(dirname "$0")/.." || exit 2
 TIER="$1"; shift
 IDS="${*:-C01 C02 C03 C04 C05 C06 C07 C08 C09 C10 C11 C12 C13 C14 C15 C16 C17 C18 C19 C20}"
 mkdir -p work evidence-thorough
